@@ -36,6 +36,7 @@ class StochasticGame:
         """
             Check that the game is well defined.
         """
+        self.num_states = len(self.players)
         if len(self.transition_list) != self.num_states:
             raise ValueError(
                 "The transition list must have the same number of elements as states in the game.")
